@@ -19,6 +19,9 @@ type hAction struct {
 	R    int    `json:"r,omitempty"`
 	ID   int    `json:"id,omitempty"`
 	Tag  int    `json:"tag,omitempty"`
+	// Dead (start only): the call is made with a context that has already ended, so its send fails while the
+	// channel stays established; in the model's terms a start immediately followed by the end of its context
+	Dead bool `json:"dead,omitempty"`
 }
 
 type c05Case struct {
@@ -30,9 +33,17 @@ type c05Case struct {
 	Stream    [][2]int  `json:"stream"`
 	Table     int       `json:"table"`
 	Note      string    `json:"note,omitempty"`
+	// a burst: all calls were released at the same instant against a peer that answers every request it receives;
+	// BurstLabels is a schedule that explains the observed outcome
+	Burst       bool     `json:"burst,omitempty"`
+	BurstLabels []string `json:"burst_labels,omitempty"`
+	Responses   [][2]int `json:"responses,omitempty"` // burst: what the peer sent, in order
 }
 
 func (c *c05Case) gated() bool {
+	if c.Burst {
+		return true
+	}
 	for _, a := range c.History {
 		if strings.HasPrefix(a.Kind, "hold") || strings.HasPrefix(a.Kind, "release") {
 			return true
@@ -46,6 +57,9 @@ func (c *c05Case) gated() bool {
 // waiting call gets the chance to take it and clean up; a cancel is CtxEnd+Cleanup. With gates the
 // deliver / cleanup steps are postponed until their release.
 func (c *c05Case) labels() []string {
+	if c.Burst {
+		return append([]string(nil), c.BurstLabels...)
+	}
 	var out []string
 	n := len(c.IDs)
 	takeAll := func() {
@@ -59,6 +73,12 @@ func (c *c05Case) labels() []string {
 		switch a.Kind {
 		case "start":
 			out = append(out, fmt.Sprintf("Reg %d", a.R), fmt.Sprintf("SendReq %d", a.R))
+			if a.Dead {
+				out = append(out, fmt.Sprintf("CtxEnd %d", a.R))
+				if !holdCleanup {
+					out = append(out, fmt.Sprintf("Cleanup %d", a.R))
+				}
+			}
 		case "respond":
 			out = append(out, "RLookup")
 			if !holdDeliver {
@@ -111,6 +131,9 @@ func (c *c05Case) Coq() string {
 		switch a.Kind {
 		case "start":
 			hist = append(hist, fmt.Sprintf("(HStart %d %d)", a.R, a.ID))
+			if a.Dead {
+				hist = append(hist, fmt.Sprintf("(HCancel %d)", a.R))
+			}
 		case "respond":
 			hist = append(hist, fmt.Sprintf("(HRespond %d %d)", a.ID, a.Tag))
 			resps = append(resps, coqfmt.Tuple(coqfmt.Nat(a.ID), coqfmt.Nat(a.Tag)))
@@ -118,6 +141,12 @@ func (c *c05Case) Coq() string {
 			hist = append(hist, fmt.Sprintf("(HCancel %d)", a.R))
 		default:
 			hist = append(hist, "(HGate 0)")
+		}
+	}
+	if c.Burst {
+		resps = nil
+		for _, r := range c.Responses {
+			resps = append(resps, coqfmt.Tuple(coqfmt.Nat(r[0]), coqfmt.Nat(r[1])))
 		}
 	}
 	labels := c.labels()
@@ -147,7 +176,7 @@ func (c *c05Case) Coq() string {
 		stream[i] = coqfmt.Tuple(coqfmt.Nat(s[0]), coqfmt.Nat(s[1]))
 	}
 	return coqfmt.Record("k_ids", coqfmt.Nats(c.IDs), "k_responses", coqfmt.List(resps), "k_labels", coqfmt.List(labels),
-		"k_history", coqfmt.List(hist), "k_gated", coqfmt.Bool(c.gated()), "o_results", coqfmt.List(res),
+		"k_history", coqfmt.List(hist), "k_gated", coqfmt.Bool(c.gated()), "k_burst", coqfmt.Bool(c.Burst), "o_results", coqfmt.List(res),
 		"o_stream", coqfmt.List(stream), "o_table", coqfmt.Nat(c.Table))
 }
 
@@ -273,6 +302,9 @@ func runC05History(transport, role string, ids []int, history []hAction) (*c05Ca
 			r := a.R
 			ctx, cancel := context.WithCancel(context.Background())
 			cancels[r] = cancel
+			if a.Dead {
+				cancel()
+			}
 			mu.Lock()
 			results[r] = "pending"
 			before := sentSeen
@@ -368,13 +400,172 @@ func runC05History(transport, role string, ids []int, history []hAction) (*c05Ca
 	return c, nil
 }
 
+// runC05Burst releases k ProcessCommand calls with the same command id at the same instant against a peer that
+// answers every request it receives (tagged in arrival order).  Whatever the interleaving, a call is either
+// refused ("already in use") or completes with a response of its own; nothing surfaces on the response stream
+// and nothing is left in the table.
+func runC05Burst(transport, role string, k, id int) (*c05Case, error) {
+	ids := make([]int, k)
+	for i := range ids {
+		ids[i] = id
+	}
+	c := &c05Case{Transport: transport, Role: role, IDs: ids, Burst: true}
+	p, err := EstablishedPair(transport, 8)
+	if err != nil {
+		return nil, err
+	}
+	defer p.Close()
+	var proc cmdProcessor = p.Client
+	var peer cmdPeer = p.Server
+	if role == "server" {
+		proc, peer = p.Server, p.Client
+	}
+	var mu sync.Mutex
+	var stream [][2]int
+	tagOf := func(r *lime.ResponseCommand) int { t, _ := strconv.Atoi(r.Metadata["tag"]); return t }
+	idOf := func(s string) int { v, _ := strconv.Atoi(strings.TrimPrefix(s, "id")); return v }
+	stop := make(chan struct{})
+	defer close(stop)
+	go func() {
+		for {
+			select {
+			case <-stop:
+				return
+			case r, ok := <-proc.RespCmdChan():
+				if !ok {
+					return
+				}
+				mu.Lock()
+				stream = append(stream, [2]int{idOf(r.ID), tagOf(r)})
+				mu.Unlock()
+			}
+		}
+	}()
+	// the echoing peer
+	go func() {
+		tag := 500
+		for req := range peer.ReqCmdChan() {
+			tag++
+			resp := &lime.ResponseCommand{Status: lime.CommandStatusSuccess}
+			resp.ID = req.ID
+			resp.Method = lime.CommandMethodGet
+			resp.Metadata = map[string]string{"tag": strconv.Itoa(tag)}
+			mu.Lock()
+			c.Responses = append(c.Responses, [2]int{idOf(req.ID), tag})
+			mu.Unlock()
+			ctx, cancel := context.WithTimeout(context.Background(), time.Second)
+			_ = peer.SendResponseCommand(ctx, resp)
+			cancel()
+		}
+	}()
+	results := make([]string, k)
+	var wg sync.WaitGroup
+	gate := make(chan struct{})
+	for r := 0; r < k; r++ {
+		wg.Add(1)
+		go func(r int) {
+			defer wg.Done()
+			req := &lime.RequestCommand{}
+			req.ID = fmt.Sprintf("id%d", id)
+			req.Method = lime.CommandMethodGet
+			req.SetURIString("/x")
+			ctx, cancel := context.WithTimeout(context.Background(), 400*time.Millisecond*slack)
+			defer cancel()
+			<-gate
+			resp, err := proc.ProcessCommand(ctx, req)
+			var res string
+			switch {
+			case err == nil && resp != nil:
+				res = fmt.Sprintf("resp:%d:%d", idOf(resp.ID), tagOf(resp))
+			case err != nil && strings.Contains(err.Error(), "already in use"):
+				res = "rejected"
+			case err != nil && ctx.Err() != nil:
+				res = "ctx"
+			default:
+				res = "error:" + fmt.Sprint(err)
+			}
+			mu.Lock()
+			results[r] = res
+			mu.Unlock()
+		}(r)
+	}
+	time.Sleep(200 * time.Microsecond)
+	close(gate)
+	wg.Wait()
+	time.Sleep(2 * time.Millisecond)
+	mu.Lock()
+	c.Results = append([]string(nil), results...)
+	c.Stream = append([][2]int(nil), stream...)
+	resps := append([][2]int(nil), c.Responses...)
+	mu.Unlock()
+	c.Table = proc.VerifPendingCommands()
+	// a schedule that explains the outcome: the accepted calls one after the other in the order of their
+	// responses, the refused ones while the first accepted call holds the id, the timed-out ones as calls
+	// whose context ended before their response was looked at
+	byTag := map[int]int{}
+	var refused, timedOut []int
+	for r, res := range c.Results {
+		switch {
+		case strings.HasPrefix(res, "resp:"):
+			parts := strings.Split(res, ":")
+			t, _ := strconv.Atoi(parts[2])
+			byTag[t] = r
+		case res == "rejected":
+			refused = append(refused, r)
+		default:
+			timedOut = append(timedOut, r)
+		}
+	}
+	first := true
+	var labels []string
+	for _, rt := range resps {
+		r, ok := byTag[rt[1]]
+		if !ok {
+			// a response nobody completed with: it belongs to a call that timed out
+			if len(timedOut) > 0 {
+				r = timedOut[0]
+				timedOut = timedOut[1:]
+				labels = append(labels, fmt.Sprintf("Reg %d", r), fmt.Sprintf("SendReq %d", r), fmt.Sprintf("CtxEnd %d", r), fmt.Sprintf("Cleanup %d", r), "RLookup", "RDeliver")
+			} else {
+				labels = append(labels, "RLookup", "RDeliver")
+			}
+			continue
+		}
+		labels = append(labels, fmt.Sprintf("Reg %d", r), fmt.Sprintf("SendReq %d", r))
+		if first {
+			for _, x := range refused {
+				labels = append(labels, fmt.Sprintf("Reg %d", x))
+			}
+			first = false
+		}
+		labels = append(labels, "RLookup", "RDeliver", fmt.Sprintf("TakeResp %d", r), fmt.Sprintf("Cleanup %d", r))
+	}
+	if first {
+		for _, x := range refused {
+			labels = append(labels, fmt.Sprintf("Reg %d", x))
+		}
+	}
+	for _, r := range timedOut {
+		labels = append(labels, fmt.Sprintf("Reg %d", r), fmt.Sprintf("SendReq %d", r), fmt.Sprintf("CtxEnd %d", r), fmt.Sprintf("Cleanup %d", r))
+	}
+	c.BurstLabels = labels
+	return c, nil
+}
+
 func runC05(env *Env) error {
 	env.Header = "From Coq Require Import List.\nImport ListNotations.\nFrom Lime Require Import Base.Res Chan.CmdTable Corr.C05."
 	env.ShardSize = 200
-	env.Rule = "quiescent histories: up to 4 concurrent ProcessCommand calls (ids colliding or not), every permutation of the responses for <= 3 in flight (quick) / <= 4 (thorough), duplicates, unknown ids, omissions with cancellation, late responses after a cancellation, id reuse after completion; gated histories (build-tag gate points) replaying the refutation witness of the tree as found and its neighbours; both roles, in-process and in-memory TCP. Non-trivial: at least two calls or a response that matches no pending call. Distinct by printed case."
+	env.Rule = "quiescent histories: up to 4 concurrent ProcessCommand calls (ids colliding or not), every permutation of the responses for <= 3 in flight (quick) / <= 4 (thorough), duplicates, unknown ids, omissions with cancellation, late responses after a cancellation, id reuse after completion; calls whose send fails while the channel stays established followed by the same id again; bursts of 8 calls with one id released at the same instant against an echoing peer; gated histories (build-tag gate points) replaying the refutation witness of the tree as found and its neighbours; both roles, in-process and in-memory TCP. Non-trivial: at least two calls or a response that matches no pending call. Distinct by printed case."
 	var rc c05Case
 	if ok, err := env.ReplayDesc(&rc); err != nil {
 		return err
+	} else if ok && rc.Burst {
+		c, err := runC05Burst(rc.Transport, rc.Role, len(rc.IDs), rc.IDs[0])
+		if err != nil {
+			return err
+		}
+		env.Add(c.Coq(), c)
+		return nil
 	} else if ok {
 		c, err := runC05History(rc.Transport, rc.Role, rc.IDs, rc.History)
 		if err != nil {
@@ -427,6 +618,51 @@ func runC05(env *Env) error {
 				return err
 			}
 		}
+	}
+	// a send that fails while the channel stays established (the context of the call has already ended), then the
+	// same id again
+	dead := func(r, id int) hAction { return hAction{Kind: "start", R: r, ID: id, Dead: true} }
+	deadHistories := [][]hAction{
+		{dead(0, 7), start(1, 7), respond(7, 100)},
+		{dead(0, 7), dead(1, 7), start(2, 7), respond(7, 100), respond(7, 101)},
+		{start(0, 7), dead(1, 7), respond(7, 100), start(2, 7), respond(7, 101)},
+		{dead(0, 7), respond(7, 100), start(1, 7), respond(7, 101)},
+		{start(0, 8), dead(1, 7), respond(8, 100), dead(2, 8), start(3, 7), respond(7, 101)},
+	}
+	for _, h := range deadHistories {
+		ids := []int{}
+		for _, a := range h {
+			if a.Kind == "start" {
+				ids = append(ids, a.ID)
+			}
+		}
+		for _, role := range []string{"client", "server"} {
+			// in-process only: on TCP a failed Send leaves the encoder in a permanent error state (C12's stated
+			// assumption: no Send is attempted after a failed Send on the same transport)
+			for _, tr := range []string{"inproc"} {
+				if err := add(tr, role, ids, h); err != nil {
+					return err
+				}
+				env.Count("failed-send")
+			}
+		}
+	}
+	// bursts: calls with one id released at the same instant
+	for i := 0; i < env.Pick(80, 800); i++ {
+		c, err := runC05Burst([]string{"inproc", "mem"}[i%2], []string{"client", "server"}[(i/2)%2], 8, 40+i%3)
+		if err != nil {
+			return err
+		}
+		env.Add(c.Coq(), c)
+		env.Count("burst")
+		acc := 0
+		for _, r := range c.Results {
+			if strings.HasPrefix(r, "resp:") {
+				acc++
+			}
+		}
+		env.Count(fmt.Sprintf("burst:accepted=%d", acc))
+		env.NonTrivial(c.Coq())
 	}
 	// sequential histories: permutations
 	maxN := env.Pick(3, 4)
